@@ -30,17 +30,21 @@ type c32Case struct {
 	QueueCap int     `json:"queue_cap"`
 	Timer    bool    `json:"timer"` // true: 1ms flush timeout; false: one hour (no timer flush during the case)
 	Ops      []c32Op `json:"ops,omitempty"`
+	// end-to-end cases (c32e2e_test.go): "c2s-raw" | "c2s-pubsub" | "s2c"; Ops are send(payload size) | blocks | pause(microseconds)
+	E2E      string `json:"e2e,omitempty"`
+	LateRead bool   `json:"late_read,omitempty"` // c2s-raw: the peer starts reading only after Close was called
+	Received []int  `json:"received,omitempty"`  // witness only: sizes of the messages that arrived at the peer
 	// concurrent cases
-	Senders   [][]int `json:"senders,omitempty"`     // message sizes per sender
-	CloseAt   int     `json:"close_at,omitempty"`    // >0: Close is called by the monitor after that many accepted sends (else after all senders finished)
-	Batches   [][]int `json:"batches,omitempty"`     // witness only: sizes of the emitted batches' messages
-	BatchLens []int   `json:"batch_lens,omitempty"`  // witness only: encoded length of every emitted batch
-	Accepted  []int   `json:"accepted,omitempty"`    // witness only: sizes of the accepted messages
+	Senders   [][]int `json:"senders,omitempty"`    // message sizes per sender
+	CloseAt   int     `json:"close_at,omitempty"`   // >0: Close is called by the monitor after that many accepted sends (else after all senders finished)
+	Batches   [][]int `json:"batches,omitempty"`    // witness only: sizes of the emitted batches' messages
+	BatchLens []int   `json:"batch_lens,omitempty"` // witness only: encoded length of every emitted batch
+	Accepted  []int   `json:"accepted,omitempty"`   // witness only: sizes of the accepted messages
 }
 
 func c32Shape(c c32Case) string {
 	var b strings.Builder
-	fmt.Fprintf(&b, "%d/%d/%v|", c.MaxSize, c.QueueCap, c.Timer)
+	fmt.Fprintf(&b, "%s%v%d/%d/%v|", c.E2E, c.LateRead, c.MaxSize, c.QueueCap, c.Timer)
 	for _, o := range c.Ops {
 		fmt.Fprintf(&b, "%s%d,", o.K, o.N)
 	}
@@ -74,7 +78,8 @@ func c32Msg(size, sender, seq int) []byte {
 
 type c32Accepted struct {
 	msg    []byte
-	accObs int // number of queue observations made before the message was accepted
+	accObs int  // number of queue observations made before the message was accepted
+	grew   bool // a batch was put on the queue while the Send call ran (overflow flush, or a timer flush racing with it)
 }
 
 type c32Batch struct {
@@ -212,7 +217,47 @@ type c32RunInfo struct {
 	inconclusive  string
 	timerFlushes  int
 	rejected      int
+	// timer-flush waits (see c32RefChain)
+	findings           []c32Finding // violations witnessed while the case ran (not by the trace judge)
+	overflowQuietWaits int          // waits for a batch that was started by a Send during which a batch was emitted (overflow flush)
+	maxRefTimeouts     int64        // largest number of reference timeouts that elapsed during a successful wait
+	timerStuck         int
 }
+
+// c32RefChain is the logical clock of the timer-flush waits: a chain of
+// reference timers of the same Go runtime, each with the duration of the
+// buffer's flush timeout, armed one after the other (the next one is armed
+// when the previous one fired). The chain is started after the Send whose
+// flush is awaited returned, i.e. after the buffer's own flush timer had to be
+// (re-)armed. The runtime fires timers in deadline order, so "K reference
+// timers, each armed later and with the same duration, have fired one after
+// the other and the batch is still pending" witnesses that the batch is not
+// going to be flushed by its timer: the verdict counts timer firings, it does
+// not read the wall clock.
+type c32RefChain struct {
+	d     time.Duration
+	fired atomic.Int64
+	stop  atomic.Bool
+}
+
+func c32StartRefChain(d time.Duration) *c32RefChain {
+	c := &c32RefChain{d: d}
+	c.arm()
+	return c
+}
+
+func (c *c32RefChain) arm() {
+	time.AfterFunc(c.d, func() {
+		c.fired.Add(1)
+		if !c.stop.Load() {
+			c.arm()
+		}
+	})
+}
+
+// c32RefTimeouts (K): a pending batch must have been flushed by its timer
+// long before K consecutive reference timeouts have elapsed.
+const c32RefTimeouts = 600
 
 // c32RunSeq drives one sequential case (the monitor is the only sender and the only reader).
 func c32RunSeq(c c32Case) (*c32Trace, c32RunInfo) {
@@ -294,8 +339,9 @@ func c32RunSeq(c c32Case) (*c32Trace, c32RunInfo) {
 				msg = c32Msg(size, 0, seq)
 			}
 			acc := t.nObs
+			qBefore := len(mb.Queue)
 			if err := mb.Send(msg); err == nil {
-				t.accepted = append(t.accepted, c32Accepted{msg: msg, accObs: acc})
+				t.accepted = append(t.accepted, c32Accepted{msg: msg, accObs: acc, grew: len(mb.Queue) > qBefore})
 				switch size {
 				case 0:
 					empties++
@@ -317,24 +363,56 @@ func c32RunSeq(c c32Case) (*c32Trace, c32RunInfo) {
 		case "waitflush":
 			// logical wait for the timer flush: only when the last accepted message cannot have been dropped
 			// (the queue was not seen full since it was accepted and has room now)
-			if !c.Timer || closed || len(t.accepted) == 0 {
-				continue
+			if !c.Timer || closed || len(t.accepted) == 0 || info.timerStuck > 0 {
+				continue // (after one stuck batch was witnessed the case only goes on to Close)
 			}
 			last := t.accepted[len(t.accepted)-1]
 			t.observe(mb.Queue)
 			if t.fullBetween(last.accObs, t.nObs-1) || delivered(last.msg) {
 				continue
 			}
+			// The buffer's flush timer for the pending batch was (re-)armed by a Send that has returned;
+			// every reference timer is armed later and has the same duration.
+			ref := c32StartRefChain(timeout)
 			deadline := time.Now().Add(c32Watchdog)
+			stuck := false
 			for !delivered(last.msg) {
 				if readOne() {
 					continue
+				}
+				if n := ref.fired.Load(); n >= c32RefTimeouts {
+					if readOne() { // observation made after the K-th reference timeout
+						continue
+					}
+					stuck = true
+					info.timerStuck++
+					info.findings = append(info.findings, c32Finding{"C32/accepted-message-not-flushed-by-timer", fmt.Sprintf(
+						"accepted message #%d (%d bytes) is still pending after %d consecutive reference timers of the flush timeout (%v), all armed after the Send returned, have fired; the buffer is open, the queue was never seen full since the message was accepted and is empty now (accepted so far: %v)",
+						len(t.accepted)-1, len(last.msg), n, timeout, c32Sizes(t.accepted))})
+					break
 				}
 				if time.Now().After(deadline) {
 					info.inconclusive = "timer flush not observed within the watchdog"
 					break
 				}
 				time.Sleep(200 * time.Microsecond)
+			}
+			ref.stop.Store(true)
+			if n := ref.fired.Load(); !stuck && info.inconclusive == "" {
+				if n > info.maxRefTimeouts {
+					info.maxRefTimeouts = n
+				}
+				// which Send started the batch that carried the awaited message?
+				if first := c32FirstOfBatchWith(t, last.msg); first != nil {
+					for k := len(t.accepted) - 1; k >= 0; k-- {
+						if bytes.Equal(t.accepted[k].msg, first) {
+							if t.accepted[k].grew {
+								info.overflowQuietWaits++
+							}
+							break
+						}
+					}
+				}
 			}
 			info.timerFlushes++
 		case "close":
@@ -361,6 +439,20 @@ func c32RunSeq(c c32Case) (*c32Trace, c32RunInfo) {
 		break
 	}
 	return t, info
+}
+
+// c32FirstOfBatchWith returns the first message of the (latest) read batch that contains msg.
+func c32FirstOfBatchWith(t *c32Trace, msg []byte) []byte {
+	for i := len(t.batches) - 1; i >= 0; i-- {
+		if ms, err := pubsub.ParseBatchMessage(t.batches[i].raw); err == nil {
+			for _, m := range ms {
+				if bytes.Equal(m, msg) {
+					return ms[0]
+				}
+			}
+		}
+	}
+	return nil
 }
 
 func c32GenSize(rng *rand.Rand, max int) int {
@@ -409,6 +501,47 @@ func c32GenSeq(rng *rand.Rand) c32Case {
 		default:
 			c.Ops = append(c.Ops, c32Op{K: "close"})
 		}
+	}
+	return c
+}
+
+// c32GenOverflowQuiet generates the overflow-then-quiet scenario on a buffer
+// with a flush timer: a non-empty pending batch, a Send that does not fit (the
+// old batch is emitted by the overflow path and the new message starts the
+// next batch), possibly a few tiny messages that still fit, then silence - no
+// further overflow, no Close - until the timer must have flushed; 1..3 rounds,
+// Close (explicit or implied) only at the end.
+func c32GenOverflowQuiet(rng *rand.Rand) c32Case {
+	c := c32Case{MaxSize: c32Maxes[rng.IntN(len(c32Maxes))], QueueCap: 6 + rng.IntN(40), Timer: true}
+	half := func() int { return c.MaxSize/2 + rng.IntN(c.MaxSize/4+1) } // two of these never fit together, one always fits
+	rounds := 1 + rng.IntN(3)
+	for r := 0; r < rounds; r++ {
+		switch rng.IntN(3) {
+		case 0: // the pending batch is one message
+			c.Ops = append(c.Ops, c32Op{K: "send", N: half()})
+		case 1: // the pending batch is several small messages
+			for k := 0; k < 2+rng.IntN(3); k++ {
+				c.Ops = append(c.Ops, c32Op{K: "send", N: 1 + rng.IntN(c.MaxSize/8+1)})
+			}
+			c.Ops = append(c.Ops, c32Op{K: "send", N: c.MaxSize / 2})
+		default: // left over from a previous overflow
+			c.Ops = append(c.Ops, c32Op{K: "send", N: half()}, c32Op{K: "send", N: half()})
+		}
+		// the Send that does not fit
+		if rng.IntN(4) == 0 {
+			c.Ops = append(c.Ops, c32Op{K: "send", N: c.MaxSize - 3 - rng.IntN(3)}) // at the limit (may also be too large for small maxima)
+		}
+		c.Ops = append(c.Ops, c32Op{K: "send", N: half()})
+		for k := rng.IntN(3); k > 0; k-- {
+			c.Ops = append(c.Ops, c32Op{K: "send", N: rng.IntN(3)})
+		}
+		if rng.IntN(3) == 0 {
+			c.Ops = append(c.Ops, c32Op{K: "read", N: 1 + rng.IntN(2)})
+		}
+		c.Ops = append(c.Ops, c32Op{K: "waitflush"})
+	}
+	if rng.IntN(2) == 0 {
+		c.Ops = append(c.Ops, c32Op{K: "close"})
 	}
 	return c
 }
@@ -532,6 +665,7 @@ func TestC32(t *testing.T) {
 		"liveness of Close is not part of the statement: a Close that blocks in timer.Stop while the timer callback waits for the buffer lock is counted (close_hangs_outside_statement) but not reported as a violation",
 	)
 	closeHangs, gaveUp := 0, false
+	var maxRef int64 // most reference timeouts that elapsed during a successful timer-flush wait (margin to c32RefTimeouts)
 	report := func(c c32Case, finds []c32Finding) {
 		for _, f := range finds {
 			r.Violation(f.key, c, "%s", f.detail)
@@ -555,6 +689,7 @@ func TestC32(t *testing.T) {
 			r.Count("close_hangs_outside_statement", 1)
 		}
 		finds, st := c32Judge(tr)
+		finds = append(info.findings, finds...)
 		w := c
 		for _, a := range tr.accepted {
 			w.Accepted = append(w.Accepted, len(a.msg))
@@ -570,6 +705,10 @@ func TestC32(t *testing.T) {
 		r.Count("seq_batches", st.batches)
 		r.Count("seq_batches_within_4_bytes_of_max", st.nearLimitBatches)
 		r.Count("seq_timer_flush_waits", info.timerFlushes)
+		r.Count("seq_timer_flush_waits_for_batch_started_by_overflowing_send", info.overflowQuietWaits)
+		if info.maxRefTimeouts > maxRef {
+			maxRef = info.maxRefTimeouts
+		}
 		if st.accepted >= 2 {
 			r.Distinct(c32Shape(c))
 			r.Sample(c)
@@ -602,6 +741,65 @@ func TestC32(t *testing.T) {
 			r.Distinct(c32Shape(c))
 		}
 	}
+	var rawSrv *c32RawServer
+	defer func() {
+		if rawSrv != nil {
+			rawSrv.hs.Close()
+		}
+	}()
+	judgeE2E := func(c c32Case) {
+		r.Eval()
+		if rawSrv == nil {
+			rawSrv = c32NewRawServer()
+		}
+		var res c32E2EResult
+		ran := false
+		r.Guard("websocket-end-to-end", c, func() {
+			if c.E2E == "s2c" {
+				res = c32RunS2C(c)
+			} else {
+				res = c32RunC2S(c, rawSrv)
+			}
+			ran = true
+		})
+		if !ran {
+			return
+		}
+		if res.inconclusive != "" {
+			r.Inconclusive("%s (case %s)", res.inconclusive, c32Shape(c))
+			gaveUp = true
+			return
+		}
+		finds, st, sizes := c32JudgeE2E(c, res)
+		w := c
+		for _, a := range res.accepted {
+			w.Accepted = append(w.Accepted, len(a))
+		}
+		w.Received = sizes
+		for _, f := range res.frames {
+			w.BatchLens = append(w.BatchLens, len(f))
+		}
+		report(w, finds)
+		r.Count("e2e_cases", 1)
+		r.Count("e2e_cases_"+strings.ReplaceAll(c.E2E, "-", "_"), 1)
+		if c.LateRead {
+			r.Count("e2e_cases_peer_reads_only_after_close", 1)
+		}
+		r.Count("e2e_messages_accepted", len(res.accepted))
+		r.Count("e2e_messages_received_by_peer", st.received)
+		r.Count("e2e_sends_rejected", res.rejected)
+		r.Count("e2e_frames_received_by_peer", st.frames)
+		r.Count("e2e_frames_within_4_bytes_of_max", st.nearLimitFrames)
+		if st.frames >= 4 {
+			r.Count("e2e_cases_with_4_or_more_frames", 1)
+		}
+		if len(res.accepted) >= 2 {
+			r.Distinct(c32Shape(c))
+			if c.MaxSize < 1000 && len(c.Ops) < 12 {
+				r.Sample(c)
+			}
+		}
+	}
 	if rf := r.Replay(); rf != nil && len(rf.Witness) > 0 {
 		var c c32Case
 		if err := jsonUnmarshal(rf.Witness, &c); err == nil && c.MaxSize > 0 {
@@ -617,11 +815,18 @@ func TestC32(t *testing.T) {
 			return
 		}
 	}
+	phaseT0 := time.Now()
 	rng := r.Rand("sequential")
 	n := r.N(6000, 300000)
-	for i := 0; i < n && r.Violations() < 12 && closeHangs < 20 && !gaveUp; i++ {
-		judgeSeq(c32GenSeq(rng))
+	for i := 0; i < n && r.Violations() < 6 && closeHangs < 20 && !gaveUp; i++ {
+		if i%5 == 4 {
+			judgeSeq(c32GenOverflowQuiet(rng))
+		} else {
+			judgeSeq(c32GenSeq(rng))
+		}
 	}
+	r.Extra("timer_wait_reference_timeouts", map[string]int64{"max_elapsed_in_a_successful_wait": maxRef, "violation_threshold": c32RefTimeouts})
+	t.Logf("PHASE seq done %v", time.Since(phaseT0))
 	crng := r.Rand("concurrent")
 	m := r.N(600, 30000)
 	for i := 0; i < m && r.Violations() < 12 && closeHangs < 20 && !gaveUp; i++ {
@@ -643,6 +848,15 @@ func TestC32(t *testing.T) {
 		}
 		judgeConc(c)
 	}
+	t.Logf("PHASE conc done %v", time.Since(phaseT0))
+	erng := r.Rand("end-to-end")
+	e := r.N(400, 20000)
+	nBig := r.N(2, 30) // c2s-raw cases with a few MB of 64-128 KiB messages (slow under -race)
+	for i := 0; i < e && r.Violations() < 6 && !gaveUp; i++ {
+		kind := []string{"c2s-raw", "c2s-raw", "c2s-pubsub", "c2s-raw", "s2c"}[i%5]
+		judgeE2E(c32GenE2E(erng, kind, kind == "c2s-raw" && i/5 < nBig && i%5 == 0))
+	}
+	t.Logf("PHASE e2e done %v", time.Since(phaseT0))
 	if r.Violations() > 0 || gaveUp {
 		r.Finish(0) // cut short
 		return
